@@ -3,6 +3,7 @@ package blockchain
 import (
 	"errors"
 	"fmt"
+	"sync"
 
 	"github.com/NethermindEth/juno/core"
 	"github.com/NethermindEth/juno/utils/lru"
@@ -29,6 +30,12 @@ type EventFiltersCacheKey struct {
 type AggregatedBloomFilterCache struct {
 	cache        *lru.Cache[EventFiltersCacheKey, *core.AggregatedBloomFilter]
 	fallbackFunc func(EventFiltersCacheKey) (core.AggregatedBloomFilter, error)
+
+	// generation counts the resets. A filter fetched from storage is only cached if no
+	// reset happened since the fetch began: a revert that runs between the fetch and the
+	// insertion would otherwise leave the pre-revert filter in the freshly cleared cache.
+	mu         sync.Mutex
+	generation uint64
 }
 
 // NewAggregatedBloomCache creates a new LRU cache for aggregated bloom filters
@@ -51,7 +58,34 @@ func (c *AggregatedBloomFilterCache) WithFallback(fallback func(EventFiltersCach
 
 // Reset clears the entire bloom filter cache, removing all stored filters.
 func (c *AggregatedBloomFilterCache) Reset() {
+	c.mu.Lock()
+	defer c.mu.Unlock()
+	c.generation++
 	c.cache.Purge()
+}
+
+// currentGeneration returns the number of resets so far.
+func (c *AggregatedBloomFilterCache) currentGeneration() uint64 {
+	c.mu.Lock()
+	defer c.mu.Unlock()
+	return c.generation
+}
+
+// addIfNotResetSince caches the filter unless the cache was reset after generation
+// was read.
+func (c *AggregatedBloomFilterCache) addIfNotResetSince(
+	generation uint64,
+	filter *core.AggregatedBloomFilter,
+) {
+	c.mu.Lock()
+	defer c.mu.Unlock()
+	if c.generation != generation {
+		return
+	}
+	c.cache.Add(
+		EventFiltersCacheKey{fromBlock: filter.FromBlock(), toBlock: filter.ToBlock()},
+		filter,
+	)
 }
 
 // SetMany inserts multiple aggregated bloom filters into the cache.
@@ -184,6 +218,7 @@ func (it *MatchedBlockIterator) loadNextWindow() error {
 		return ErrAggregatedBloomFilterFallbackNil
 	}
 
+	generation := it.cache.currentGeneration()
 	fetched, err := it.cache.fallbackFunc(key)
 	if err != nil {
 		return fmt.Errorf("fetching aggregated bloom filter via fallback: %w", err)
@@ -193,7 +228,7 @@ func (it *MatchedBlockIterator) loadNextWindow() error {
 		return ErrFetchedFilterBoundsMismatch
 	}
 
-	it.cache.cache.Add(EventFiltersCacheKey{fromBlock: filter.FromBlock(), toBlock: filter.ToBlock()}, filter)
+	it.cache.addIfNotResetSince(generation, filter)
 
 	err = it.matcher.getCandidateBlocksForFilterInto(filter, it.currentBits)
 	if err != nil {
